@@ -154,6 +154,7 @@ def contents_of(path):
     return contents_of_image(read_image(path))
 
 
+WORD_TOKEN = re.compile(rb'0(\d{24})e-99999')
 FLOAT_RE = re.compile(rb'[+-]?(\d+\.\d*|\.\d+|\d+)([eE][+-]?\d+)?')
 
 
@@ -161,6 +162,11 @@ def _canon_piece(t):
     if t.startswith(b'w:') and len(t) == 18:        # bit pattern printed by the model (min/max of computed data)
         import struct
         return b'f:' + struct.unpack('>d', bytes.fromhex(t[2:].decode()))[0].hex().encode()
+    m = WORD_TOKEN.fullmatch(t)
+    if m:            # the model's stand-in for a printed float: "0", the 8 bytes of the value (most significant first, three
+        import struct        # decimal digits each), "e-99999" - a float literal that no printed value can be
+        d = m.group(1)
+        return b'f:' + struct.unpack('>d', bytes(int(d[i:i + 3]) for i in range(0, 24, 3)))[0].hex().encode()
     if FLOAT_RE.fullmatch(t) and not re.fullmatch(rb'[+-]?\d+', t):
         return b'f:' + float(t).hex().encode()
     if t in (b'inf', b'-inf'):
